@@ -746,7 +746,11 @@ func (r *rig) run(st *step) error {
 		// Missing and corrupted blobs are stored correctly from now on.
 		tmpls, contents := r.repairFn()
 		for _, t := range tmpls {
-			delete(r.badTmpl, t)
+			if r.caseBad[t] {
+				r.badTmpl[t] = "case_collision"
+			} else {
+				delete(r.badTmpl, t)
+			}
 		}
 		for _, i := range contents {
 			delete(r.badContent, i)
